@@ -126,6 +126,9 @@ struct v_req {
     struct v_obs { uint8_t type_be[2]; ethernet_address_t real, src, dst; } obs[8];
     uint32_t obs_n;           /* observations recorded before the Query */
     uint32_t obs_cap;         /* descriptors one QueryResp can carry: (MTU - 34) / 20 */
+    /* large property under proof (C08): the platform's bytes, their size, the requested offset; lt_fault = a platform
+     * fault occurred while fetching it (then an empty answer is acceptable as well) */
+    const uint8_t *lt_data; size_t lt_size; uint16_t lt_off; uint8_t lt_fault;
     uint32_t tx_base;         /* g_led.tx_attempts when the sender under proof was entered */
     uint32_t sleep_base;      /* g_led.sleep_calls at that point */
 };
